@@ -50,7 +50,8 @@ SA_NAMES = ("Column", "Integer", "String", "Boolean", "Float", "Table", "Enum", 
 def probes():
     return ["gen_wrote_output", "gen_refused_without_writing", "gen_refused_existing_output", "existing_output_is_torso",
             "import_inference_on", "prepend", "imports_from_file", "multi_entry_input", "json_input", "phase_1_or_2",
-            "fault_fired", "crash_fired", "user_deleted_output", "i4_checked"] + ["wrote_emit_" + e for e in
+            "fault_fired", "crash_fired", "user_deleted_output", "i4_checked", "existing_output_spelled_tilde",
+            "existing_output_spelled_relative"] + ["wrote_emit_" + e for e in
                                                                                   ("class", "argparse", "sqlalchemy",
                                                                                    "sqlalchemy_table", "json_schema")]
 
@@ -77,7 +78,9 @@ def gen_step(draw, kind):
          "parse": draw(st.sampled_from(("infer", "explicit"))), "tpl": draw(st.sampled_from(TPLS)),
          "infer_imports": draw(st.booleans()), "prepend": draw(st.integers(0, 3)) == 3,
          "imports_from_file": draw(st.integers(0, 3)) == 3, "no_word_wrap": draw(st.booleans()),
-         "phase": 0, "fault": None}
+         "phase": 0, "fault": None,
+         # how the user spells the output path: absolute, relative to the cwd, or with a leading ~ (HOME = project dir)
+         "spelling": draw(st.sampled_from(("abs", "abs", "abs", "rel", "tilde", "dotslash")))}
     if draw(st.integers(0, 9)) >= 6:
         s["fault"] = {"frac": draw(st.floats(0, 0.999)), "kind": draw(st.sampled_from(("err", "err", "crash"))),
                       "target": draw(st.sampled_from(("mut", "mut", "any"))), "errno_i": draw(st.integers(0, 2)),
@@ -139,8 +142,9 @@ def argv_of(stp, ent, in_rel):
     parse = stp["parse"]
     if parse == "explicit":
         parse = {"class": "class", "function": "function", "argparse": "argparse", "json": "json_schema"}[ent["kind"]]
+    out = {"abs": "{ROOT}/out.py", "rel": "out.py", "tilde": "~/out.py", "dotslash": "./sub/../out.py"}[stp.get("spelling", "abs")]
     argv = ["gen", "--name-tpl", stp["tpl"], "--input-mapping", "{ROOT}/" + in_rel, "--parse", parse, "--emit", stp["emit"],
-            "-o", "{ROOT}/out.py"]
+            "-o", out]
     if stp.get("infer_imports"):
         argv.append("--emit-and-infer-imports")
     if stp.get("prepend"):
@@ -271,7 +275,10 @@ def simulate(plan):
     files["imports_src.py"] = "import os\nfrom collections import OrderedDict\n\nX = 1\n"
     files["README.txt"] = "unrelated\n"
     world = SimWorld(tag="c19")
+    files["sub"] = None
     world.write_files(files)
+    old_home = os.environ.get("HOME")
+    os.environ["HOME"] = world.root
     in_text = files[in_rel]
     if len(ent["specs"]) > 1:
         bump(probe, "multi_entry_input")
@@ -330,18 +337,23 @@ def simulate(plan):
             viols = []
             created, modified, deleted = SimWorld.diff(before, after)
             # I7 — always
-            other = [x for x in created + modified + deleted if x != "out.py"]
+            other = [x for x in created + modified + deleted if x not in ("out.py", "~/out.py")]
             if other:
                 viols.append({"clause": "I7", "detail": "paths other than the output changed: %s" % other[:5],
                               "sig": {"what": "other_path_changed"}})
             for e in o.events:
-                if e["kind"] in ("open_w", "open_raw_w") and (not e.get("inside") or e["path"] != "out.py"):
+                # the named output, as the OS resolves the spelling the user gave (a literal "~" directory included)
+                if e["kind"] in ("open_w", "open_raw_w") and (not e.get("inside") or e["path"] not in ("out.py", "~/out.py")):
                     viols.append({"clause": "I7", "detail": "write-mode open of %r at %s" % (e["path"], e.get("site")),
                                   "sig": {"what": "other_path_opened_for_writing", "site": e.get("site")}})
                     break
             # I6 — always: existing output at phase 0 must be refused and untouched
             if existed and not stp.get("phase"):
                 bump(probe, "gen_refused_existing_output" if not o.ok else "gen_on_existing_returned")
+                if stp.get("spelling") == "tilde":
+                    bump(probe, "existing_output_spelled_tilde")
+                elif stp.get("spelling") in ("rel", "dotslash"):
+                    bump(probe, "existing_output_spelled_relative")
                 if torso:
                     bump(probe, "existing_output_is_torso")
                 wopen = [e for e in o.events if e["kind"] in ("open_w", "open_raw_w") and e.get("path") == "out.py"]
@@ -393,7 +405,12 @@ def simulate(plan):
             history.append({"op": " ".join(op["argv"][1:3] + op["argv"][5:9]), "argv": op["argv"], "outcome": o.brief(), "world": wd,
                             "key": o.key()})
     finally:
+        if old_home is None:
+            os.environ.pop("HOME", None)
+        else:
+            os.environ["HOME"] = old_home
         world.destroy()
+    files = {k: v for k, v in files.items() if v is not None}
     res.trace = {"kind": "c19-plan", "plan": concrete, "files": files, "history": history}
     res.digest = digest_of([[h.get("op"), h.get("key"), h.get("world")] for h in history])
     res.nontrivial = wrote
